@@ -715,10 +715,11 @@ func codecNames(p *Prog) map[string]bool {
 // kernelCensus: literal shift / mask / multiplier constants of one function (no look-through into callees).
 func kernelCensus(f *ssa.Function) map[[2]string]int {
 	out := map[[2]string]int{}
+	live := feasibleBlocks(f)
 	eachInstr(f, func(i ssa.Instruction) {
 		x, ok := i.(*ssa.BinOp)
-		if !ok {
-			return
+		if !ok || !live[i.Block()] {
+			return // (code behind a branch that an earlier test of the same value already decided is not counted)
 		}
 		var min int64
 		switch x.Op {
@@ -848,13 +849,44 @@ func ruleWire(p *Prog, r *RuleResult) {
 		byName[p.FnName(f)] = f
 	}
 	nk, nskip := 0, 0
+	frozenKernel := map[string]bool{}
+	for _, wk := range spec.Kernels {
+		frozenKernel[wk.Fn] = true
+	}
 	for _, wk := range spec.Kernels {
 		f := byName[wk.Fn]
 		if f == nil {
 			nskip++
 			continue
 		}
+		// a literal may have moved into a helper extracted from the kernel: helpers that are not kernels of the
+		// frozen table themselves are counted with their caller
 		m := kernelCensus(f)
+		{
+			seenH := map[*ssa.Function]bool{f: true}
+			var addHelpers func(g *ssa.Function, d int)
+			addHelpers = func(g *ssa.Function, d int) {
+				if d > 3 {
+					return
+				}
+				eachInstr(g, func(i ssa.Instruction) {
+					c := callOf(i)
+					if c == nil {
+						return
+					}
+					h := c.StaticCallee()
+					if h == nil || h.Blocks == nil || seenH[h] || FnPkg(h) != FnPkg(f) || frozenKernel[p.FnName(h)] {
+						return
+					}
+					seenH[h] = true
+					for k2, v2 := range kernelCensus(h) {
+						m[k2] += v2
+					}
+					addHelpers(h, d+1)
+				})
+			}
+			addHelpers(f, 0)
+		}
 		okAll := true
 		for _, e := range wk.Entries {
 			n++
